@@ -65,6 +65,10 @@ func (c04) Gen(seed uint64, run int, tier string) *core.Case {
 	cfg.Versioning = true
 	p := c04Prog{Route: x.route, Param: x.param, Target: c04Targets[r.IntN(len(c04Targets))], Enc: c04Encs[r.IntN(len(c04Encs))],
 		Depth: []int{1, 1, 1, 1, 2, 3, 4, 6}[r.IntN(8)], Place: []string{"start", "middle", "end"}[r.IntN(3)], Frag: r.IntN(4), GW: r.IntN(cfg.Instances)}
+	if r.IntN(4) == 0 {
+		// a quarter of the cases use the plainest spelling: one or two "../" at the very start, no encoding tricks
+		p.Enc, p.Place, p.Depth = "raw", "start", 1+r.IntN(2)
+	}
 	// companion parameters: the attacked parameter rarely acts alone
 	if strings.HasPrefix(x.route, "List") {
 		if r.IntN(3) != 0 {
@@ -308,6 +312,8 @@ func (c04) Exec(c *core.Case) (out *core.Outcome) {
 		v := dec
 		if p.Target == "sibling" && p.Depth == 1 && p.Enc == "raw" {
 			v = fx.Alpha + "/" + fx.Obj // plain cross-bucket source the attacker has no right to read
+		} else if p.Place == "start" && p.Depth%2 == 1 {
+			v = dec // the hostile value is the whole copy source: its first segment stands where the bucket name belongs
 		} else {
 			v = mine + "/" + dec
 		}
@@ -355,6 +361,13 @@ func (c04) Exec(c *core.Case) (out *core.Outcome) {
 		if strings.EqualFold(h.K, "X-Amz-Copy-Source") && h.V == fx.Alpha+"/"+fx.Obj {
 			// a plain cross-bucket source names that bucket: its ACL / policy may be read to refuse the copy
 			allowed = append(allowed, filepath.Join(e.Dirs.Root, fx.Alpha), filepath.Join(e.Dirs.Vers, fx.Alpha), filepath.Join(e.Dirs.Sidecar, fx.Alpha))
+		} else if strings.EqualFold(h.K, "X-Amz-Copy-Source") {
+			// the first segment of a copy source is the source bucket the request names, if it is an ordinary
+			// (possibly odd-looking, e.g. full-width dots) literal name: looking that bucket up is legitimate
+			first := strings.SplitN(strings.TrimPrefix(h.V, "/"), "/", 2)[0]
+			if first != "" && first != "." && first != ".." && !strings.ContainsRune(first, 0) && first != mine {
+				allowed = append(allowed, filepath.Join(e.Dirs.Root, first), filepath.Join(e.Dirs.Vers, first), filepath.Join(e.Dirs.Sidecar, first))
+			}
 		}
 	}
 	if named != "" {
